@@ -24,7 +24,7 @@ WORK = os.environ.get("VERIF_WORK_DIR") or os.path.join(ROOT, "work")
 TARGET = os.environ.get("VERIF_TARGET") or os.path.join(HARNESS, "target")
 REPLAYS = os.path.join(ROOT, "replays")
 EVIDENCE = os.environ.get("VERIF_EVIDENCE_DIR") or os.path.join(ROOT, "evidence")
-KNOWN = os.path.join(ROOT, "known_findings.json")
+KNOWN = os.environ.get("VERIF_KNOWN_FINDINGS") or os.path.join(ROOT, "known_findings.json")
 TLA_CP = "/opt/veriftools/tla/tla2tools.jar:/opt/veriftools/tla/CommunityModules-deps.jar"
 
 
